@@ -104,11 +104,11 @@ static int sched_ip_schedule(parsec_execution_stream_t* es,
         it = (parsec_list_item_t*)((parsec_list_item_t*)it)->list_next;
     } while( it != (parsec_list_item_t*)new_context );
 #endif
-    if( 0 == distance ) {
-        parsec_mca_sched_list_local_counter_chain_sorted(sl, new_context, parsec_execution_context_priority_comparator);
-    } else {
-        parsec_mca_sched_list_local_counter_chain_back(sl, new_context);
-    }
+    /* As in the absolute priority scheduler the distance is ignored: chaining
+     * delayed tasks at the back of the list put them first in line for select,
+     * which pops from the back, whatever their priority. */
+    parsec_mca_sched_list_local_counter_chain_sorted(sl, new_context, parsec_execution_context_priority_comparator);
+    (void)distance;
     return PARSEC_SUCCESS;
 }
 
